@@ -1,8 +1,275 @@
 import EdpVerif.Drv.Common
-namespace Edp.Drv
+import EdpVerif.Drv.Etf
+import EdpVerif.Impl.Handshake
+import EdpVerif.Spec.Handshake
+import EdpVerif.Basic.Md5
+/-! Driver requests of property C04 (handshake state machine and message codecs).
 
-/-- driver requests of property C04 (stub: nothing handled yet) -/
+Op tokens: `B` begin_connect, `N` prepare_send_name, `S:<hex>` handle_status, `C` prepare_complement,
+`H:<hex>:<chal>` handle_challenge (chal = the clock-derived challenge read back from the implementation),
+`R` prepare_challenge_reply, `A:<hex>` handle_challenge_ack, `D` disconnect.
+Observation per op: `<out>@<state>#<negotiated>` with out = `ok` | `ok:<hex>` | `e-<class>` | `panic`. -/
+namespace Edp.Drv
+open Edp
+open Edp.Spec.Handshake (Op)
+
+namespace C04
+open Edp.Impl.Handshake
+
+def getNat (s : String) : Except String Nat :=
+  match s.toNat? with
+  | some n => .ok n
+  | none => .error ("bad-nat " ++ s)
+
+def parseOp (t : String) : Except String Op :=
+  match t.splitOn ":" with
+  | ["B"] => pure .beginConnect
+  | ["N"] => pure .prepareSendName
+  | ["C"] => pure .prepareComplement
+  | ["R"] => pure .prepareChallengeReply
+  | ["D"] => pure .disconnect
+  | ["S", h] => do pure (.handleStatus (← getHex h))
+  | ["A", h] => do pure (.handleChallengeAck (← getHex h))
+  | ["H", h, c] => do pure (.handleChallenge (← getHex h) (← getNat c))
+  | _ => .error ("bad-op-token " ++ t.take 20)
+
+/-- the fixed peer challenge message of the exhaustive stream: flags 0xd07df7fbd, challenge 0x01020304, creation 3, "p@h" -/
+def fixedChallenge : Bytes :=
+  [78] ++ be64 0xd07df7fbd ++ be32 0x01020304 ++ be32 3 ++ be16 3 ++ [112, 64, 104]
+
+/-- what a peer that knows `cookie` answers to challenge `c` (Spec layout without the length) -/
+def peerAck (cookie : Bytes) (c : Nat) : Bytes := [97] ++ Spec.Handshake.digest cookie c
+
+def flipLast (bs : Bytes) : Bytes :=
+  match bs.reverse with
+  | [] => []
+  | b :: r => (UInt8.ofNat (b.toNat ^^^ 1) :: r).reverse
+
+/-- tokens of the exhaustive stream: the fixed letters are symbolic (`So Sn Hv:<chal> Ht Av:<c> Aw:<c> At:<c>`) -/
+def parseOpC (cookie : Bytes) (t : String) : Except String Op :=
+  match t.splitOn ":" with
+  | ["So"] => pure (.handleStatus [115, 111, 107])
+  | ["Sn"] => pure (.handleStatus [115, 110, 111, 107])
+  | ["Hv", c] => do pure (.handleChallenge fixedChallenge (← getNat c))
+  | ["Ht", c] => do pure (.handleChallenge (fixedChallenge.take 18) (← getNat c))
+  | ["Av", c] => do pure (.handleChallengeAck (peerAck cookie (← getNat c)))
+  | ["Aw", c] => do pure (.handleChallengeAck (flipLast (peerAck cookie (← getNat c))))
+  | ["At", c] => do pure (.handleChallengeAck ((peerAck cookie (← getNat c)).take 16))
+  | _ => parseOp t
+
+def stateName : ConnState → String
+  | .disconnected => "disconnected"
+  | .connecting => "connecting"
+  | .sendingName => "sending_name"
+  | .awaitingStatus => "awaiting_status"
+  | .awaitingChallenge => "awaiting_challenge"
+  | .sendingChallengeReply => "sending_challenge_reply"
+  | .awaitingChallengeAck => "awaiting_challenge_ack"
+  | .connected => "connected"
+  | .failed => "failed"
+
+def errName : Err → String
+  | .invalidTransition => "e-state"
+  | .nameTooLong => "e-name"
+  | .malformed => "e-malformed"
+  | .refused => "e-refused"
+  | .auth => "e-auth"
+  | .stateMsg => "e-state"
+
+/-- FNV-1a, 32 bit (compact stand-in for emitted bytes in the exhaustive stream) -/
+def fnv32 (bs : Bytes) : Nat :=
+  bs.foldl (fun h b => ((h ^^^ b.toNat) * 16777619) % 4294967296) 2166136261
+
+def hex8 (n : Nat) : String := hexOf (be32 n)
+
+def outText : Out → String
+  | .unit => "ok"
+  | .bytes b => "ok:" ++ hexOf b
+  | .err e => errName e
+  | .panic => "panic"
+
+def negText : Option Nat → String
+  | none => "-"
+  | some n => toString n
+
+def stateIdx : ConnState → String
+  | .disconnected => "0"
+  | .connecting => "1"
+  | .sendingName => "2"
+  | .awaitingStatus => "3"
+  | .awaitingChallenge => "4"
+  | .sendingChallengeReply => "5"
+  | .awaitingChallengeAck => "6"
+  | .connected => "7"
+  | .failed => "8"
+
+def hexNat (n : Nat) : String := String.ofList (Nat.toDigits 16 n)
+
+def obsText (compact : Bool) (o : Out) (s : State) : String :=
+  if compact then
+    (match o with
+      | .unit => "k"
+      | .bytes b => "k:" ++ hex8 (fnv32 b)
+      | .err e => errName e
+      | .panic => "panic") ++ "@" ++ stateIdx s.state ++ "#" ++ (match s.neg with | none => "-" | some n => hexNat n)
+  else outText o ++ "@" ++ stateName s.state ++ "#" ++ negText s.neg
+
+def dgMd5 (cookie : Bytes) (c : Nat) : Bytes := Spec.Handshake.digest cookie c
+
+/-- run the model over an op list, one observation per op -/
+def observe (compact : Bool) (cfg : Cfg) : State → List Op → List String
+  | _, [] => []
+  | s, op :: rest =>
+    let (s', o) := step cfg dgMd5 s op
+    obsText compact o s' :: observe compact cfg s' rest
+
+def getCfg (n c f cr : String) : Except String Cfg := do
+  pure { name := ← getHex n, cookie := ← getHex c, flags := ← getNat f, creation := ← getNat cr }
+
+def showD {α : Type} (f : α → String) : HRes α → String
+  | .ok a => "ok " ++ f a
+  | .err e => errName e
+  | .panic => "panic"
+
+/-! #### the Spec oracle on an observed trace (uses `Spec.Handshake` only, never `Impl.step`) -/
+
+structure Obs where
+  op : Op
+  out : String
+  state : String
+  neg : String
+
+def parseObs (t : String) : Except String Obs :=
+  match t.splitOn ">" with
+  | [o, r] =>
+    match r.splitOn "@" with
+    | [out, sn] =>
+      match sn.splitOn "#" with
+      | [st, ng] => do pure { op := ← parseOp o, out := out, state := st, neg := ng }
+      | _ => .error "bad-obs"
+    | _ => .error "bad-obs"
+  | _ => .error "bad-obs"
+
+def isErrOut (s : String) : Bool := s.startsWith "e-"
+
+/-- check one observed step against the specification; `pre` = history before it, `before` = state name before -/
+def checkStep (cfg : Cfg) (pre : List Op) (before : String) (o : Obs) : Option String :=
+  let h := Spec.Handshake.hist cfg.flags pre
+  let h' := Spec.Handshake.hist cfg.flags (pre ++ [o.op])
+  if o.out == "panic" then some "panic"
+  else if o.neg != negText h'.neg then some ("negotiated-flags spec=" ++ negText h'.neg ++ " impl=" ++ o.neg)
+  else
+    -- connected only by an ack carrying the digest of the cookie and the challenge issued in this handshake
+    let entered := o.state == "connected" && before != "connected"
+    let justified : Bool :=
+      match o.op, h.our with
+      | .handleChallengeAck b, some c => Spec.Handshake.parseAck b == some (Spec.Handshake.digest cfg.cookie c) && o.out == "ok"
+      | _, _ => false
+    if entered && !justified then some "connected-without-proof"
+    else if isErrOut o.out && entered then some "error-yet-connected"
+    else
+      match o.op with
+      | .prepareSendName =>
+        if cfg.name.length ≤ 255 then
+          if o.out == "ok:" ++ hexOf (Spec.Handshake.sendNameOld cfg.flags cfg.name) then none else some "send-name-layout"
+        else if isErrOut o.out then none else some "send-name-too-long-accepted"
+      | .prepareComplement =>
+        if o.out == "ok:" ++ hexOf (Spec.Handshake.complement cfg.flags cfg.creation) then none else some "complement-layout"
+      | .prepareChallengeReply =>
+        match h.our, h.their with
+        | some c, some t =>
+          let want := Spec.Handshake.reply c (Spec.Handshake.digest cfg.cookie t)
+          if o.out == "ok:" ++ hexOf want && Spec.Handshake.parseReply want == some (c, Spec.Handshake.digest cfg.cookie t)
+          then none else some "reply-layout-or-digest"
+        | _, _ => if isErrOut o.out then none else some "reply-without-challenge"
+      | .handleStatus b =>
+        match Spec.Handshake.parseStatus b with
+        | some st => if st.accepts then (if o.out == "ok" then none else some "good-status-rejected")
+                     else if isErrOut o.out then none else some "refusal-accepted"
+        | none => if isErrOut o.out then none else some "malformed-status-accepted"
+      | .handleChallenge b _ =>
+        match Spec.Handshake.parseChallenge b with
+        | some _ => if o.out == "ok" then none else some "good-challenge-rejected"
+        | none => if isErrOut o.out then none else some "malformed-challenge-accepted"
+      | .handleChallengeAck b =>
+        let good : Bool := match h.our with
+          | some c => Spec.Handshake.parseAck b == some (Spec.Handshake.digest cfg.cookie c)
+          | none => false
+        if good then (if o.out == "ok" && o.state == "connected" then none else some "good-ack-rejected")
+        else if isErrOut o.out && o.state == before then none else some "bad-ack-accepted"
+      | _ => none
+
+def checkTrace (cfg : Cfg) : List Op → String → List Obs → Nat → Option String
+  | _, _, [], _ => none
+  | pre, before, o :: rest, i =>
+    match checkStep cfg pre before o with
+    | some why => some ("step " ++ toString i ++ " " ++ why)
+    | none => checkTrace cfg (pre ++ [o.op]) o.state rest (i + 1)
+
+end C04
+
+open C04 Edp.Impl.Handshake in
 def handleC04 : List String → Option String
+  | "c04run" :: n :: c :: f :: cr :: ops => some <| run do
+      let cfg ← getCfg n c f cr
+      let ops ← ops.mapM parseOp
+      pure (" ".intercalate (observe false cfg State.init ops))
+  | "c04x" :: n :: c :: f :: cr :: ops => some <| run do
+      let cfg ← getCfg n c f cr
+      let ops ← ops.mapM (parseOpC cfg.cookie)
+      pure (" ".intercalate (observe true cfg State.init ops))
+  -- Spec oracle over an observed trace of the implementation
+  | "c04chk" :: n :: c :: f :: cr :: obs => some <| run do
+      let cfg ← getCfg n c f cr
+      let obs ← obs.mapM parseObs
+      match checkTrace cfg [] "disconnected" obs 0 with
+      | none => pure "ok"
+      | some why => pure ("FAIL " ++ why)
+  -- message codecs (model vs code)
+  | ["c04enc_name", f, cr, n] => some <| run do
+      pure (showD hexOf (encodeSendName ⟨← getNat f, ← getNat cr, ← getHex n⟩))
+  | ["c04enc_name_old", f, cr, n] => some <| run do
+      pure (showD hexOf (encodeSendNameOld ⟨← getNat f, ← getNat cr, ← getHex n⟩))
+  | ["c04dec_name", h] => some <| run do
+      pure (showD (fun (m : NameMsg) => s!"{m.flags} {m.creation} {hexOf m.name}") (decodeSendName (← getHex h)))
+  | ["c04enc_status", k] => some <| run do
+      let st ← match k with
+        | "ok" => pure Status.ok | "ok_simultaneous" => pure Status.okSimultaneous | "nok" => pure Status.nok
+        | "not_allowed" => pure Status.notAllowed | "alive" => pure Status.alive | _ => .error "bad-status"
+      pure ("ok " ++ hexOf (encodeStatus st))
+  | ["c04dec_status", h] => some <| run do
+      pure (showD (fun (s : Status) => match s with
+        | .ok => "ok" | .okSimultaneous => "ok_simultaneous" | .nok => "nok" | .notAllowed => "not_allowed" | .alive => "alive")
+        (decodeStatus (← getHex h)))
+  | ["c04enc_chal", f, ch, cr, n] => some <| run do
+      pure (showD hexOf (encodeChallenge ⟨← getNat f, ← getNat ch, ← getNat cr, ← getHex n⟩))
+  | ["c04dec_chal", h] => some <| run do
+      pure (showD (fun (m : ChallengeMsg) => s!"{m.flags} {m.challenge} {m.creation} {hexOf m.name}") (decodeChallenge (← getHex h)))
+  | ["c04enc_reply", our, their, c] => some <| run do
+      pure ("ok " ++ hexOf (encodeReply (← getNat our) (dgMd5 (← getHex c) (← getNat their))))
+  | ["c04dec_reply", h] => some <| run do
+      pure (showD (fun (p : Nat × Bytes) => s!"{p.1} {hexOf p.2}") (decodeReply (← getHex h)))
+  | ["c04enc_ack", ch, c] => some <| run do
+      pure ("ok " ++ hexOf (encodeAck (dgMd5 (← getHex c) (← getNat ch))))
+  | ["c04dec_ack", h] => some <| run do
+      pure (showD hexOf (decodeAck (← getHex h)))
+  -- `verify`: does this digest prove knowledge of the cookie for this challenge
+  | ["c04verify", d, ch, c] => some <| run do
+      pure (if (← getHex d) == dgMd5 (← getHex c) (← getNat ch) then "true" else "false")
+  -- digest::compute_digest against the native MD5
+  | ["c04digest", ch, c] => some <| run do
+      pure (hexOf (dgMd5 (← getHex c) (← getNat ch)))
+  -- Spec oracles on single messages produced by the implementation's encoders
+  | ["c04p_name_new", f, cr, n, h] => some <| run do
+      let name ← getHex n
+      pure (if (← getHex h) == Spec.Handshake.sendNameNew (← getNat f) (← getNat cr) name then "ok" else "FAIL layout")
+  | ["c04p_chal", f, ch, cr, n, h] => some <| run do
+      let name ← getHex n
+      pure (if (← getHex h) == Spec.Handshake.challenge (← getNat f) (← getNat ch) (← getNat cr) name then "ok" else "FAIL layout")
+  | ["c04p_ack", ch, c, h] => some <| run do
+      pure (if (← getHex h) == Spec.Handshake.ack (dgMd5 (← getHex c) (← getNat ch)) then "ok" else "FAIL layout")
+  | ["c04p_status", txt, h] => some <| run do
+      pure (if (← getHex h) == Spec.Handshake.status (← getHex txt) then "ok" else "FAIL layout")
   | _ => none
 
 end Edp.Drv
